@@ -7,6 +7,7 @@ import (
 	"crypto/ecdsa"
 	"crypto/ed25519"
 	"fmt"
+	"reflect"
 	"strings"
 	"sync"
 	"time"
@@ -358,11 +359,37 @@ func (k *Keyper) DB() *kdb.DB { return k.Srv.State().(*kdb.DB) }
 // blockSyncClient.BlockNumber, no handleOnChainChanges (unexported method of KeyperCore, see the
 // package comment), no 2 s sleep.
 func (k *Keyper) stepBody(ctx context.Context) error {
-	err := smobserver.SyncAppWithDB(ctx, k.client, k.pool, k.state)
-	if err != nil {
+	if err := k.syncApp(ctx); err != nil {
 		return err
 	}
 	return fx.SendShutterMessages(ctx, database.New(k.pool), k.sender)
+}
+
+// syncApp calls smobserver.SyncAppWithDB with what operateShuttermint hands it. The call goes through reflect so
+// that a version of the function that also wants one of the other things the keyper owns (its message sender)
+// can still be driven: each parameter gets the first unused value of a fitting type.
+func (k *Keyper) syncApp(ctx context.Context) error {
+	f := reflect.ValueOf(smobserver.SyncAppWithDB)
+	have := []reflect.Value{reflect.ValueOf(ctx), reflect.ValueOf(k.client), reflect.ValueOf(k.pool), reflect.ValueOf(k.state), reflect.ValueOf(k.sender)}
+	used := make([]bool, len(have))
+	args := []reflect.Value{}
+	for i := 0; i < f.Type().NumIn(); i++ {
+		found := false
+		for j, v := range have {
+			if !used[j] && v.IsValid() && v.Type().AssignableTo(f.Type().In(i)) {
+				args, used[j], found = append(args, v), true, true
+				break
+			}
+		}
+		if !found {
+			return fmt.Errorf("dkgrig: nothing to pass for parameter %d (%s) of SyncAppWithDB", i, f.Type().In(i))
+		}
+	}
+	out := f.Call(args)
+	if len(out) == 1 && !out[0].IsNil() {
+		return out[0].Interface().(error)
+	}
+	return nil
 }
 
 // Step performs exactly one iteration of the loop body, synchronously. A BroadcastTxCommit inside it
